@@ -52,6 +52,17 @@ def run(ctx):
                 if rng.random() < 0.12:
                     c["perturb"] = hexf(tol * 10 ** rng.choice([3, 4, 5]))
                 cases.append(c)
+        # faults sized by the coefficient magnitude of the target (monomial coefficients of a degree-14 corner reach 1e3): an acceptance test
+        # that normalises the reconstruction error by the coefficient size lets these through
+        for d in ((16, 18, 20) if quick else (12, 14, 16, 18, 20)):
+            for rep in range(4 if quick else 10):
+                ph = (gen_phases(rng, d, rng.choice(["generic", "moderate"])) + [0.1] * (d + 1))[: d + 1]
+                pre, pim = Q.corner_of_phases(ph)
+                big = max(max(abs(x) for x in pre), max(abs(x) for x in pim))
+                tol = rng.choice([1e-6, 1e-8])
+                if big >= 800:
+                    cases.append({"fn": "qspp", "poly": Q.cplx_hex(pre, pim), "complex": True, "signal_operator": "Wx", "measurement": "z",
+                                  "tolerance": hexf(tol), "kind": "bigcoef", "mode": "achievable", "perturb": hexf(tol * big * 0.2), "timeout": 300})
         # slightly mis-scaled corners (|P(1)| within 1e-3 of 1) at tight tolerances: unachievable, must raise
         for d in ([2, 3, 5, 8] if quick else range(1, 13)):
             for f in (1.0005, 0.9995):
